@@ -90,7 +90,7 @@ theorem wf_runFrom_finds (env : Env) (fuel d : Nat) (kvs : List (Str × Json)) (
     ∃ state, objGet kvs name = some state ∧ wfState d kvs state = true ∧
       runFrom env (fuel + 1) (.obj kvs) name data ctx r st =
         runState env fuel (.obj kvs) name state data (ctxFor ctx name r) r
-          (st.enter (stateType state) name data r) := by
+          ((st.enter (stateType state) name data r).visit (stateType state)) := by
   obtain ⟨state, hs⟩ := defined_get hn
   exact ⟨state, hs, wfScope_get hw hs, by simp [runFrom, hs]⟩
 
